@@ -18,7 +18,8 @@ def _values() -> t.Any:
                   st.sampled_from(list(b"abcXYZ019"))),
         max_size=10,
     ).map(bytes)
-    return st.one_of(special, special, gens.small_octets(16), st.text(max_size=6).map(lambda s: s.encode("utf-8")))
+    return st.one_of(special, special, gens.small_octets(16), st.text(max_size=6).map(lambda s: s.encode("utf-8")),
+                     st.lists(st.sampled_from(gens.NORMALISATION_SENSITIVE + ["\\2a", "\\5c", "\\29", "a\\28", "*", " ", " x", "x "]), min_size=1, max_size=3).map(lambda l: "".join(l).encode("utf-8")))
 
 
 def _filters(max_leaves: int) -> t.Any:
